@@ -7,9 +7,29 @@ import importlib
 import json
 import logging
 import os
+import shutil
 import sys
+import tempfile
 import traceback
 import warnings
+
+
+def _scratch_root() -> str:
+    return "/dev/shm" if os.path.isdir("/dev/shm") and os.access("/dev/shm", os.W_OK) else tempfile.gettempdir()
+
+
+def _sweep_stale() -> None:
+    """Scratch directories of runs whose process is gone (killed before its own clean-up)."""
+    root = _scratch_root()
+    try:
+        names = os.listdir(root)
+    except OSError:
+        return
+    for n in names:
+        if n.startswith("pynverif_run"):
+            pid = n[len("pynverif_run"):].split("_")[0]
+            if pid.isdigit() and not os.path.exists(f"/proc/{pid}"):
+                shutil.rmtree(os.path.join(root, n), ignore_errors=True)
 
 
 def main() -> int:
@@ -45,7 +65,15 @@ def main() -> int:
 
 
 if __name__ == "__main__":
-    rc = main()
+    _sweep_stale()
+    # every scratch database of this run (worker processes included) lives under one directory removed at the end:
+    # worker processes and os._exit skip atexit handlers
+    _base = tempfile.mkdtemp(prefix=f"pynverif_run{os.getpid()}_", dir=_scratch_root())
+    os.environ["VERIF_TMPBASE"] = _base
+    try:
+        rc = main()
+    finally:
+        shutil.rmtree(_base, ignore_errors=True)
     sys.stdout.flush()
     sys.stderr.flush()
     os._exit(rc)  # background daemon threads of pynenc must not delay/alter the exit
